@@ -218,7 +218,42 @@ let cmd_forces line =
   List.iter (fun v -> Buffer.add_string b (Printf.sprintf " %s %s %s" (s_of_f v.vx) (s_of_f v.vy) (s_of_f v.vz))) f;
   print_endline (Buffer.contents b)
 
-let commands : (string * (string -> unit)) list ref = ref [ ("forces", cmd_forces); ("geometry", cmd_geometry); ("valid", cmd_valid); ("cellcycle", cmd_cellcycle); ("kernel", cmd_kernel); ("grid", cmd_grid); ("integrate", cmd_integrate) ]
+(* ---------------------------------------------------------------- C01/C11 replay of a remeshing trace *)
+let cmd_replay line =
+  let t = Array.of_list (toks line) in
+  let pos = ref 0 in
+  let next () = let s = t.(!pos) in incr pos; s in
+  let nf () = f_of_s (next ()) and ni () = int_of_string (next ()) in
+  let dyn = ni () <> 0 in let lmin2 = nf () in let lmax2 = nf () in
+  let nfc = ni () in
+  let faces = List.init nfc (fun _ -> let a = ni () in let b = ni () in let c = ni () in let ty = ni () in
+    (((int_to_n a, int_to_n b), int_to_n c), int_to_nat ty)) in
+  let nn = ni () in
+  let v3 () = let x = nf () in let y = nf () in let z = nf () in { vx = x; vy = y; vz = z } in
+  let nodes = List.init nn (fun _ -> let id = ni () in let p = v3 () in let m = v3 () in (int_to_n id, { ns_pos = p; ns_mom = m })) in
+  let nops = ni () in
+  let ops = List.init nops (fun _ -> let k = next () in let a = ni () in let b = ni () in let e = ni () in
+    match k with "S" -> OpSplit (int_to_n a, int_to_n b, int_to_n e) | "M" -> OpMerge (int_to_n a, int_to_n b, int_to_n e) | _ -> OpSwap (int_to_n a, int_to_n b)) in
+  let st0 = { ms_faces = faces; ms_nodes = nodes } in
+  match ops_replay_f dyn st0 ops with
+  | None -> print_endline "NONE"
+  | Some st ->
+    let g = ops_guards_f dyn lmin2 lmax2 st0 ops in
+    let canon (((a, b), c), ty) =
+      let a = n_to_int a and b = n_to_int b and c = n_to_int c in
+      let m = min a (min b c) in
+      let (x, y, z) = if m = a then (a, b, c) else if m = b then (b, c, a) else (c, a, b) in (x, y, z, nat_to_int ty) in
+    let fs = List.sort compare (List.map canon st.ms_faces) in
+    let ns = List.sort (fun (a, _) (b, _) -> compare a b) (List.map (fun (k, v) -> (n_to_int k, v)) st.ms_nodes) in
+    let b = Buffer.create 4096 in
+    Buffer.add_string b (Printf.sprintf "OK %d |" (if g then 1 else 0));
+    List.iter (fun (x, y, z, ty) -> Buffer.add_string b (Printf.sprintf " %d %d %d %d" x y z ty)) fs;
+    Buffer.add_string b " |";
+    List.iter (fun (k, v) -> Buffer.add_string b (Printf.sprintf " %d %s %s %s %s %s %s" k (s_of_f v.ns_pos.vx) (s_of_f v.ns_pos.vy) (s_of_f v.ns_pos.vz)
+      (s_of_f v.ns_mom.vx) (s_of_f v.ns_mom.vy) (s_of_f v.ns_mom.vz))) ns;
+    print_endline (Buffer.contents b)
+
+let commands : (string * (string -> unit)) list ref = ref [ ("replay", cmd_replay); ("forces", cmd_forces); ("geometry", cmd_geometry); ("valid", cmd_valid); ("cellcycle", cmd_cellcycle); ("kernel", cmd_kernel); ("grid", cmd_grid); ("integrate", cmd_integrate) ]
 
 let () =
   let cmd = Sys.argv.(1) in
